@@ -8,12 +8,12 @@ REL=""; grep -q '"profile": *"release' $SRC/meta.json && REL="--release"
 git -C /repo worktree add -q --detach $WT HEAD || exit 2
 cd $WT
 cp $SRC/demo.rs tests/seed_demo.rs
-base=$(cargo test --offline $REL --test seed_demo 2>&1 | grep -E "^test result" | head -1)
+base=$(cargo test --offline $REL --test seed_demo 2>&1 | grep -E "^test result:" | head -1)
 git apply $SRC/patch.diff || { echo "patch does not apply"; git -C /repo worktree remove --force $WT; exit 2; }
 rm tests/seed_demo.rs
-suite=$(cargo test --offline 2>&1 | grep -E "^test result" | tr '\n' ' ')
+suite=$(cargo test --offline 2>&1 | grep -E "^test result:" | tr '\n' ' ')
 cp $SRC/demo.rs tests/seed_demo.rs
-mut=$(cargo test --offline $REL --test seed_demo 2>&1 | grep -E "^test result" | head -3 | tr '\n' ' ')
+mut=$(cargo test --offline $REL --test seed_demo 2>&1 | grep -E "^test result:" | head -3 | tr '\n' ' ')
 cd /; git -C /repo worktree remove --force $WT
 echo "base: $base"; echo "suite-with-change: $suite"; echo "demo-with-change: $mut"
 if echo "$base" | grep -q "ok\." && ! echo "$suite" | grep -q "FAILED" && echo "$mut" | grep -q "FAILED"; then
